@@ -138,6 +138,8 @@ def gen_cfg(template: str, subst: dict, tag: str) -> str:
     txt = open(os.path.join(SPEC, template)).read()
     for k, v in subst.items():
         txt = txt.replace("@" + k + "@", str(v))
+        txt = re.sub("@" + re.escape(k) + "=[^@]*@", lambda m: str(v), txt)
+    txt = re.sub(r"@\w+=([^@]*)@", r"\1", txt)          # @Param=default@: parameters a caller may leave out
     if "@" in txt:
         raise MachineryError("unsubstituted parameter in " + template)
     rel = os.path.join(os.path.dirname(template), f".gen_{os.getpid()}_{tag}.cfg")
